@@ -14,7 +14,10 @@ from . import extract as X
 from . import unit as U
 
 VERIF = U.VERIF
-EVID = os.path.join(VERIF, 'evidence')
+# evidence of checks run against a scratch copy of the repository (VERIF_REPO set: seeded changes) is kept apart from
+# the evidence of /repo itself
+_ALT = os.environ.get('VERIF_REPO', '/repo').rstrip('/')
+EVID = os.path.join(VERIF, 'evidence') if _ALT == '/repo' else os.path.join(VERIF, '.work', 'alt_' + os.path.basename(_ALT), 'evidence')
 REPLAYS = os.path.join(EVID, 'replays')
 
 
